@@ -20,7 +20,6 @@ RULE = ("kind 0: generated programs (raise site x surrounding statements from a 
         "full x ignore pattern x working/home directory; kind 1: the highlighter on real Python files of the repository and the standard "
         "library; kind 2: compact on frame sequences. non-trivial = distinct (site, origin, recursion, verbosity, message class) / file / "
         "sequence")
-THEOREMS = ["line_numbers_consecutive", "marks_exactly_the_failing_line", "snippet_is_a_window", "snippet_contains_failing_line", "row_shown", "one_line_per_row", "compact_keeps_frames", "listed_frames_are_kept", "ignored_frames_are_invisible", "debug_keeps_every_frame", "stack_trace_lists_frames", "full_report_shape", "simple_report_shape", "text_is_shown_as_it_is", "named_text_is_shown_as_it_is", "line_shows_its_texts", "decorated_line_shows_the_same_text", "line_never_makes_the_formatter_fail", "highlighted_line_shows_the_source", "every_written_line_is_literals_and_separators", "indentation_keeps_a_line_good", "writing_a_good_line_never_fails", "report_lines_always_exist", "render_never_fails_unconditionally", "render_with_solutions_never_fails_unconditionally", "unreadable_source_report", "plain_report_bytes", "simple_report_says_the_message", "full_report_says_name_and_message"]
 TRUSTED = ["tokenize, inspect and crashtest (Inspector, Frame) are outside clikit: their outputs (token streams, frames, file contents) are "
            "INPUTS of the model, taken from the same run; the hypotheses the theorems put on token streams (wf_tokens) are checked on "
            "every token stream of the run by the harness (validated, not proved); FrameCollection.compact is modelled and tied (kind 2)",
